@@ -258,6 +258,11 @@ def norm_index(I, idx, ln):
 
 def getitem(I, obj, idx):
     st = I.st
+    if isinstance(obj, MaskedSel):
+        r = resolve_masked(I, obj)          # the selection itself is indexed: decide the mask
+        if r is None:
+            raise Unsupported('subscript of a boolean-mask selection of symbolic shape')
+        return getitem(I, r, idx)
     if isinstance(obj, tuple) or isinstance(obj, str):
         if isinstance(idx, slice):
             if any(isinstance(x, SV) for x in (idx.start, idx.stop, idx.step)):
@@ -881,6 +886,30 @@ def fancy_index(I, obj, idx):
             and all(numkind(k) == 'int' for k in I.st.heap[idx]) and all(numkind(v) is not None for v in I.st.heap[obj]):
         # integer-array indexing of a 1-d numeric array with (some) symbolic indices: entry by entry
         return I.st.alloc('clist', [getitem(I, obj, k) for k in I.st.heap[idx]], nd=True)
+    if isinstance(idx, Ref) and idx.kind == 'clist' and isinstance(obj, Ref) and obj.kind == 'clist' and obj.nd and I.st.heap[idx] \
+            and all(numkind(k) == 'int' for k in I.st.heap[idx]) and I.st.heap[obj] \
+            and all(is_list(r_) and r_.kind == 'clist' and all(numkind(v) is not None for v in I.st.heap[r_]) for r_ in I.st.heap[obj]):
+        # rows of a 2-d numeric array selected by (symbolic) integers: column by column
+        rows = [I.st.heap[r_] for r_ in I.st.heap[obj]]
+        ncol = len(rows[0])
+        if any(len(r_) != ncol for r_ in rows):
+            raise Unsupported('ragged array')
+        out = []
+        for k in I.st.heap[idx]:
+            if isinstance(k, int):
+                out.append(I.st.alloc('clist', list(rows[k]), nd=True))
+                continue
+            i = norm_index(I, k, z3.IntVal(len(rows)))
+            if not I.st.branch(z3.And(i >= 0, i < len(rows))):
+                raise PyExc('IndexError', 'index out of bounds')
+            sel = []
+            for c in range(ncol):
+                res = rows[-1][c]
+                for r_ in range(len(rows) - 2, -1, -1):
+                    res = I.ite(i == r_, rows[r_][c], res)
+                sel.append(res)
+            out.append(I.st.alloc('clist', sel, nd=True))
+        return I.st.alloc('clist', out, nd=True)
     raise Unsupported('fancy indexing')
 
 
@@ -1730,6 +1759,9 @@ def container_method(I, obj, name):
                     raise Unsupported('reshape of an array of symbolic shape')
                 return _lib.nd_build(I_, _lib.nd_reshape(_lib.nd_flat(n), shp))
             return B(reshape)
+        if name == 'argsort' and obj.nd and obj.kind == 'clist' and not any(is_list(y) for y in st.heap[obj]):
+            f = lib_lookup(I, 'numpy.argsort')
+            return B(lambda I_, a, k: I_.call(f, [obj] + a, k))
         if name in ('ptp', 'argmin', 'argmax') and obj.nd:
             f = lib_lookup(I, 'numpy.' + name)
             return B(lambda I_, a, k: I_.call(f, [obj] + a, k))
